@@ -99,6 +99,7 @@ pub fn cases(prop: &str, seed: u64, tier: &str) -> Vec<String> {
             corpus_queries(&mut out, &mut r, QuerySel { class: false, method: false, lines: false, params: true, all_lines: false, both_files: false }, b.thorough);
         }
         "C04" => {
+            std_cases(&mut out, &mut r, &["HC", "HB"], if tier == "quick" { 300 } else { 8000 });
             big_cases(&mut out, &mut r, QuerySel { class: true, method: true, lines: false, params: false, all_lines: false, both_files: false }, if tier == "quick" { 3 } else { 20 }, false);
             let b = budget(tier, 200, 6000);
             for i in 0..b.mappings {
@@ -119,6 +120,7 @@ pub fn cases(prop: &str, seed: u64, tier: &str) -> Vec<String> {
             corpus_queries(&mut out, &mut r, QuerySel { class: true, method: true, lines: false, params: false, all_lines: false, both_files: false }, b.thorough);
         }
         "C06" | "C13P" => {
+            std_cases(&mut out, &mut r, &["HU", "HN", "HP", "HT"], if tier == "quick" { 150 } else { 5000 });
             let b = budget(tier, 3000, 200000);
             for k in 0..2 {
                 let n = *r.pick(&[999usize, 1000, 1001, 1200]) + k;
@@ -279,6 +281,9 @@ pub fn cases(prop: &str, seed: u64, tier: &str) -> Vec<String> {
             }
         }
         "C14" | "C09" => {
+            if prop == "C09" {
+                std_cases(&mut out, &mut r, &["HE", "HD", "HW"], if tier == "quick" { 200 } else { 5000 });
+            }
             big_cases(&mut out, &mut r, QuerySel { class: false, method: false, lines: false, params: false, all_lines: false, both_files: false }, if tier == "quick" { 2 } else { 10 }, true);
             let b = budget(tier, 300, 6000);
             for i in 0..b.mappings {
@@ -431,6 +436,7 @@ pub fn cases(prop: &str, seed: u64, tier: &str) -> Vec<String> {
             }
         }
         "C12" => {
+            std_cases(&mut out, &mut r, &["HB", "HD", "HW"], if tier == "quick" { 300 } else { 8000 });
             let b = budget(tier, 400, 20000);
             for _ in 0..(if tier == "quick" { 3 } else { 30 }) {
                 // VALID large caches: every query must answer without panic and correctly (search code on
@@ -486,6 +492,7 @@ pub fn cases(prop: &str, seed: u64, tier: &str) -> Vec<String> {
             }
         }
         "C07" => {
+            std_cases(&mut out, &mut r, &["HL", "HT", "HU"], if tier == "quick" { 200 } else { 5000 });
             let b = budget(tier, 250, 8000);
             for _ in 0..(if tier == "quick" { 2 } else { 10 }) {
                 // large method groups: frames of the heavy classes through the text API
@@ -567,6 +574,46 @@ pub fn cases(prop: &str, seed: u64, tier: &str) -> Vec<String> {
         }
         "C16" => {
             let b = budget(tier, 250, 8000);
+            {
+                // bounded-exhaustive: every descriptor with at most 3 parameters over a 6-type alphabet and 3
+                // return types, and (thorough: all, quick: a sample of) their single-character deletions / replacements
+                let m = "com.example.Long -> x.Long:\ncom.example.A -> a:\n";
+                push_mapping(&mut out, m.as_bytes());
+                let alpha = ["I", "J", "La;", "Lx/Long;", "[I", "[[Lq/é;"];
+                let rets = ["V", "I", "[La;"];
+                let mut descs: Vec<String> = Vec::new();
+                for n in 0..=3usize {
+                    let total = 6usize.pow(n as u32);
+                    for idx in 0..total {
+                        let mut x = idx;
+                        let mut ps = String::new();
+                        for _ in 0..n {
+                            ps.push_str(alpha[x % 6]);
+                            x /= 6;
+                        }
+                        for ret in rets {
+                            descs.push(format!("({}){}", ps, ret));
+                        }
+                    }
+                }
+                for d in &descs {
+                    out.push(format!("G {}", hex(d.as_bytes())));
+                }
+                for d in &descs {
+                    let chars: Vec<char> = d.chars().collect();
+                    for pos in 0..chars.len() {
+                        if !b.thorough && !r.chance(1, 12) {
+                            continue;
+                        }
+                        let mut del = chars.clone();
+                        del.remove(pos);
+                        out.push(format!("G {}", hex(del.iter().collect::<String>().as_bytes())));
+                        let mut rep = chars.clone();
+                        rep[pos] = *r.pick(&['(', ')', ';', 'L', '[', 'V', 'x', 'é', '/']);
+                        out.push(format!("G {}", hex(rep.iter().collect::<String>().as_bytes())));
+                    }
+                }
+            }
             for _ in 0..b.mappings {
                 let m = gen_mapping(&mut r, &REP);
                 if !representable(m.as_bytes()) {
@@ -1001,6 +1048,7 @@ pub fn cases_c17(seed: u64, tier: &str) -> Vec<String> {
     for _ in 0..b.mappings {
         let depth = r.below(5);
         let mut toks: Vec<String> = Vec::new();
+        let mut prev_tail: Vec<String> = Vec::new();
         for d in 0..=depth {
             if d > 0 {
                 toks.push("c".into());
@@ -1030,6 +1078,15 @@ pub fn cases_c17(seed: u64, tier: &str) -> Vec<String> {
                     line
                 ));
             }
+            // Java traces share their trailing frames with the enclosing trace: repeat the parent's last frames
+            if d > 0 && !prev_tail.is_empty() && r.chance(1, 2) {
+                let k = 1 + r.below(prev_tail.len());
+                for t in &prev_tail[prev_tail.len() - k..] {
+                    toks.push(t.clone());
+                }
+            }
+            prev_tail = toks.iter().rev().take_while(|t| t.starts_with("f:")).take(3).cloned().collect::<Vec<_>>();
+            prev_tail.reverse();
         }
         out.push(format!("A {}", toks.join(" ")));
     }
@@ -1047,4 +1104,76 @@ pub fn cases_c17(seed: u64, tier: &str) -> Vec<String> {
         out.push(format!("TH {}", hex(t.as_bytes())));
     }
     out
+}
+
+// ---------------------------------------------------------------- std / dependency semantics written into the model
+const WS_PIECES: &[&str] = &[" ", "\t", "\n", "\r", "\u{b}", "\u{c}", "\u{85}", "\u{a0}", "\u{1680}", "\u{2000}", "\u{2003}", "\u{200a}",
+    "\u{2028}", "\u{2029}", "\u{202f}", "\u{205f}", "\u{3000}", "\u{200b}", "\u{feff}", "\u{180e}", "a", "é", "😀", ":", "x y"];
+
+fn utf8ish(r: &mut Rng) -> Vec<u8> {
+    let mut b = Vec::new();
+    for _ in 0..r.below(7) {
+        b.extend_from_slice(r.pick(WS_PIECES).as_bytes());
+    }
+    if r.chance(1, 4) && !b.is_empty() {
+        // damage: overlongs, surrogates, truncated sequences, stray continuation bytes
+        let pos = r.below(b.len());
+        let bad: &[u8] = *r.pick(&[&[0xc0, 0x80][..], &[0xed, 0xa0, 0x80], &[0xf4, 0x90, 0x80, 0x80], &[0xe2, 0x80], &[0x80], &[0xff], &[0xf0, 0x9f]]);
+        for (k, x) in bad.iter().enumerate() {
+            b.insert(pos + k, *x);
+        }
+    }
+    b
+}
+
+pub fn std_cases(out: &mut Vec<String>, r: &mut Rng, kinds: &[&str], n: usize) {
+    for _ in 0..n {
+        for k in kinds {
+            match *k {
+                "HU" | "HT" | "HL" => out.push(format!("{} {}", k, hex(&utf8ish(r)))),
+                "HC" => {
+                    let a = utf8ish(r);
+                    let mut b = if r.chance(1, 3) { a.clone() } else { utf8ish(r) };
+                    if r.chance(1, 4) {
+                        b.push(r.below(256) as u8);
+                    }
+                    out.push(format!("HC {} {}", hex(&a), hex(&b)));
+                }
+                "HP" => {
+                    let s: &str = *r.pick(&["0", "7", "+7", "-7", "", "+", "007", "4294967295", "4294967296", "18446744073709551615",
+                        "18446744073709551616", "99999999999999999999", "1_0", " 1", "1 ", "٣", "１", "0x10", "1e3", "+0", "++1"]);
+                    out.push(format!("HP {}", hex(s.as_bytes())));
+                }
+                "HN" => {
+                    let b: Vec<u8> = (0..16).map(|_| r.below(256) as u8).collect();
+                    out.push(format!("HN {}", hex(&b)));
+                }
+                "HB" => {
+                    let len = *r.pick(&[0usize, 1, 2, 3, 4, 5, 7, 8, 9, 15, 16, 17, 31, 32, 33, 64, 100]);
+                    let mut l: Vec<u8> = (0..len).map(|_| r.below(12) as u8).collect();
+                    if r.chance(2, 3) {
+                        l.sort();
+                    }
+                    out.push(format!("HB {} {}", hex(&[r.below(12) as u8]), hex(&l)));
+                }
+                "HE" => {
+                    let v = *r.pick(&[0u64, 1, 127, 128, 129, 16383, 16384, 16385, 2097151, 2097152, u32::MAX as u64, 1 << 32, u64::MAX - 1, u64::MAX]);
+                    out.push(format!("HE {}", if r.chance(1, 2) { v } else { r.next() >> r.below(64) }));
+                }
+                "HD" => {
+                    let mut b: Vec<u8> = (0..r.below(12)).map(|_| if r.chance(2, 3) { 0x80 | r.below(128) as u8 } else { r.below(128) as u8 }).collect();
+                    if r.chance(1, 5) {
+                        b = vec![0xff, 0xff, 0xff, 0xff, 0xff, 0xff, 0xff, 0xff, 0xff, r.below(4) as u8, 7];
+                    }
+                    out.push(format!("HD {}", hex(&b)));
+                }
+                "HW" => {
+                    let pool = ["a", "bc", "", "a", "é", &"z".repeat(127), &"y".repeat(128), &"w".repeat(200), "bc"];
+                    let toks: Vec<String> = (0..1 + r.below(7)).map(|_| hex(r.pick(&pool).as_bytes())).collect();
+                    out.push(format!("HW {}", toks.join(" ")));
+                }
+                _ => {}
+            }
+        }
+    }
 }
